@@ -98,14 +98,16 @@ void no_preempt(int delta) { if (tl_task) tl_task->nopreempt += delta; }
 static void abort_hook()
 {
 	g_teardown = true;
-	if (tl_task && g_active) task_exit_now();
+	// nothing to unwind once the task body has returned (a deadlock detected while the last runnable task leaves):
+	// choose_forced() sees g_teardown and leave() goes on to the unfinished tasks
+	if (tl_task && g_active && tl_task->jb_set) task_exit_now();
 }
 
 void finish_run()
 {
 	g_finish = true;
 	g_teardown = true;
-	if (tl_task && g_active) task_exit_now();
+	if (tl_task && g_active && tl_task->jb_set) task_exit_now();
 }
 
 static bool is_runnable(Task *t)
